@@ -93,7 +93,7 @@ func (s *Source) Read(buf []byte) (int, error) {
 	if s.Flood {
 		// contract of a capture handle with a read deadline: a Read returns when a packet arrives or at the
 		// deadline, whichever is first; past the deadline it fails at once
-		left := time.Until(s.deadline)
+		left := V.Until(s.deadline)
 		if left <= 0 {
 			return 0, os.ErrDeadlineExceeded
 		}
@@ -119,7 +119,7 @@ func (s *Source) Read(buf []byte) (int, error) {
 		p, s.Queue = s.Queue[0], s.Queue[1:]
 	} else {
 		if s.Timed {
-			V.Sleep(time.Until(s.deadline))
+			V.Sleep(V.Until(s.deadline))
 		}
 		return 0, os.ErrDeadlineExceeded
 	}
